@@ -184,8 +184,14 @@ func (e *Engine) tupleRange(t *types.Tuple, i int) (int, int) {
 
 // typeTag returns the integer tag of a dynamic type (stable within a run; ordered by first use).
 func (e *Engine) typeTag(t types.Type) string {
-	s := e.P.relType(t)
+	return e.tagByName(e.P.relType(t), t)
+}
+
+func (e *Engine) tagByName(s string, t types.Type) string {
 	if id, ok := e.tags[s]; ok {
+		if _, generic := e.tagTypes[id].(*types.Named); generic && t != nil && e.P.relType(e.tagTypes[id]) != s {
+			e.tagTypes[id] = t // prefer the type as it occurs in the code (instantiated with the body's type parameter)
+		}
 		return fmt.Sprint(id)
 	}
 	id := len(e.tags) + 1
